@@ -230,6 +230,9 @@ def check_property(pid, tier, module=None, level="other", assumptions=(), explan
     known_hits = []
     harness_errors = []
     try:
+        if pre_hook is not None:
+            extra_evidence, extra_viol = pre_hook(builds, pid, tier)
+            violations.extend(extra_viol)
         conds = list_conds(module, tier, builds["C"], wrap_dir)
         cmap = {c["name"]: c for c in conds}
         tasks = []
